@@ -356,6 +356,7 @@ S("c15_reqqueue", 400, 12000),   # REQ with requests queued before the connectio
                           "victim application was judged against the reference decoder",
         "budget_s": {"quick": 50, "thorough": 900},
         "scenarios": [
+            S("c11_peergone", 500, 15000),  # a peer that handshakes correctly and goes away while the application is sending to it: no SIGPIPE, the listener keeps working (scenarios/c11b_peergone.cc)
             S("c11_sp", 1300, 39000),
             S("c11_ws", 800, 24000),
             S("c11_udp", 800, 24000),
